@@ -174,7 +174,10 @@ class NSMonitor:
                 out = orig(ns)
                 if was:
                     with ctx.guard():
-                        ctx.on_restored(ns)
+                        fp = ns._flow_proposal
+                        ctx.nb.note("restored_pool", populated=bool(fp.populated),
+                                    n_indices=len(getattr(fp, "indices", []) or []),
+                                    iteration=int(ns.iteration))
                 return out
             return check_resume
 
